@@ -105,3 +105,61 @@ func (p *Pool) Put(x any) {
 	p.items = append(p.items, x)
 	p.mu.Unlock()
 }
+
+// Once is a cooperative stand-in for sync.Once (simgen rewrites the type): a
+// task that calls Do while another task is parked inside f waits as a lock
+// waiter of the scheduler instead of blocking on sync.Once's internal mutex,
+// which synctest does not regard as durably blocked.
+type Once struct {
+	mu      sync.Mutex
+	done    bool
+	running bool
+	real    sync.Once
+}
+
+// Do calls f if and only if Do is being called for the first time for this Once.
+func (o *Once) Do(f func()) {
+	s := active.Load()
+	var t *Task
+	if s != nil {
+		t = s.self()
+	}
+	if t == nil {
+		o.mu.Lock()
+		done := o.done
+		o.mu.Unlock()
+		if done {
+			return
+		}
+		o.real.Do(func() {
+			defer func() { o.mu.Lock(); o.done = true; o.mu.Unlock() }()
+			f()
+		})
+		return
+	}
+	s.park(t, "once.Do", StParked)
+	for {
+		o.mu.Lock()
+		if o.done {
+			o.mu.Unlock()
+			return
+		}
+		if !o.running {
+			o.running = true
+			o.mu.Unlock()
+			break
+		}
+		o.mu.Unlock()
+		if t.exiting {
+			return
+		}
+		s.park(t, "once.Do/wait", StLockWait)
+	}
+	defer func() {
+		o.mu.Lock()
+		o.done, o.running = true, false
+		o.mu.Unlock()
+		Release(func() {})
+	}()
+	f()
+}
